@@ -158,7 +158,7 @@ def run_check(pid, rules, tier="quick", level="other", explanation="", trusted_b
     inc = [i for i in insts if i.status == "incomplete"]
     known = [i for i in insts if i.status == "known"]
     oks = [i for i in insts if i.status in ("ok", "reviewed")]
-    if ctx and not tool_error and len(insts) < min_instances:
+    if ctx and not tool_error and not viol and len(insts) < min_instances:
         tool_error = "only %d rule instances analysed (floor %d)" % (len(insts), min_instances)
 
     lines = []
